@@ -42,7 +42,8 @@ ExhNext == UNCHANGED vars
 (* Random: N matrices with 2..R rows, values drawn from Vals.  Row          *)
 (* duplication and near-duplication are forced with probability ~1/3 so     *)
 (* that ties, duplicates and dominated neighbours are frequent.             *)
-RandRow == [c \in 1..C |-> RandomElement(Vals)]
+\* (the dummy parameter keeps TLC from caching this as a constant-level definition)
+RandRow(z) == [c \in 1..C |-> RandomElement(Vals)]
 
 RECURSIVE RandRows(_)
 RandRows(k) ==
@@ -54,7 +55,7 @@ RandRows(k) ==
                LET src == prev[RandomElement(1..Len(prev))]
                    cc  == RandomElement(1..C)
                IN Append(prev, [src EXCEPT ![cc] = RandomElement(Vals)])
-          ELSE Append(prev, RandRow)
+          ELSE Append(prev, RandRow(k))
 
 RandInit == /\ n = 0
             /\ M = RandRows(2)
